@@ -30,8 +30,11 @@ import (
 
 // C06 — every committed block reaches the DA layer in order; the watermark is sound.
 // The UNMODIFIED HeaderSubmissionLoop and DataSubmissionLoop run in a synctest bubble (virtual time); the explorer
-// answers every Submit call, may kill the process at every watermark write and around every Submit, and picks the
-// chain contents. Oracles read the DA double's ground truth.
+// answers every Submit call, may kill the process at every watermark write and around every Submit, may stop and
+// restart it cleanly (caches saved and reloaded) and picks the chain contents: which blocks are empty and which blocks
+// carry byte-identical transaction lists (equal data commitments). Oracles read the DA double's ground truth.
+// The exploration is cut into units (part × configuration × chain × restart instant) that the shard processes deal
+// out among themselves; below a unit explore.Explore enumerates the DA answers and crash points.
 
 const (
 	daBlock = time.Second
@@ -236,9 +239,6 @@ func bubble(c *explore.Ctx, u unit, horizon int, root string) (out outcome) {
 			out.engine = fmt.Sprintf("the sequencing layer was asked for batch %d of a chain of %d blocks", asked+1, len(u.Chain))
 		}
 		asked++
-		if os.Getenv("C06_DEV_PRINT") != "" { // DEV-ONLY
-			fmt.Println("DEV seq.next", asked, k, clock)
-		}
 		if k == 0 {
 			return world.SeqAnswer{Kind: "batch", Time: clock}
 		}
@@ -261,6 +261,17 @@ func bubble(c *explore.Ctx, u unit, horizon int, root string) (out outcome) {
 	}
 	if u.repeats() > 0 {
 		addTag("repeated-tx-list")
+		if u.adjacentRepeat() {
+			addTag("repeat-adjacent")
+		}
+		if oe, oo := u.separatedRepeat(); oe || oo {
+			if oe {
+				addTag("repeat-across-empty-block")
+			}
+			if oo {
+				addTag("repeat-across-other-block")
+			}
+		}
 	}
 	var n *world.Node
 	var fail *world.Fail
@@ -431,10 +442,6 @@ func bubble(c *explore.Ctx, u unit, horizon int, root string) (out outcome) {
 		for i := 0; i < k; i++ {
 			if err, _ := n.Produce(context.Background()); err != nil {
 				ev("produce-error:%v", err)
-			}
-			if os.Getenv("C06_DEV_PRINT") != "" { // DEV-ONLY
-				hh, bb := committed()
-				fmt.Println("DEV produced", hh, len(bb), len(bb[len(bb)-1].D.Txs))
 			}
 		}
 		armed = was
@@ -665,14 +672,6 @@ func TestCheck(t *testing.T) {
 			{Name: "faults-longer-chains", Seq: 4, Budgets: map[string]int{"da": 2, "crash": 1}},
 			{Name: "clean-restart", Seq: 3, Restart: true, Budgets: map[string]int{"da": 2, "crash": 1}, Total: 2},
 		})
-	if v := os.Getenv("C06_DEV_PARTS"); v != "" { // DEV-ONLY "seq,restart,da,crash,total;..."
-		parts = nil
-		for _, f := range strings.Split(v, ";") {
-			var sq, rs, a, b, c int
-			fmt.Sscanf(f, "%d,%d,%d,%d,%d", &sq, &rs, &a, &b, &c)
-			parts = append(parts, part{Name: f, Seq: sq, Restart: rs == 1, Budgets: map[string]int{"da": a, "crash": b}, Total: c})
-		}
-	}
 	r.Assume = []string{
 		"virtual time (testing/synctest): DA block time 1 s, mempool TTL 2 DA blocks; the two submission loops are started 1 ms apart (both orders explored) so that their timers never coincide",
 		"'accepted by the DA layer' = stored by the DA double (including stored-but-acknowledgement-lost)",
@@ -749,18 +748,12 @@ func TestCheck(t *testing.T) {
 	claim, shardDir, firstShard := claimer(r)
 	started := time.Now()
 	deadline := vf.Pick(r, 100*time.Second, 25*time.Minute)
-	if d, err := time.ParseDuration(os.Getenv("C06_DEV_DEADLINE")); err == nil { // DEV-ONLY
-		deadline = d
-	}
 	var st explore.Stats
 	var caps []string
 	stats := make([]*unitStat, len(jobs))
 	notStarted := 0
 	for j, jb := range jobs {
 		u, pt := jb.u, parts[jb.part]
-		if f := os.Getenv("C06_DEV_UNIT"); f != "" && !strings.Contains(u.String()+"$", f) { // DEV-ONLY
-			continue
-		}
 		left := deadline - time.Since(started)
 		if left <= 0 {
 			notStarted++ // left unclaimed: every shard passes the deadline at about the same time
@@ -773,9 +766,6 @@ func TestCheck(t *testing.T) {
 			o := body(t, c, u, horizon)
 			if o.engine != "" {
 				r.EngineError(fmt.Sprintf("%s: %s", u, o.engine))
-			}
-			if os.Getenv("C06_DEV_PRINT") != "" { // DEV-ONLY
-				fmt.Println("DEV", u, o.sig, o.events, o.fail)
 			}
 			if o.fail != nil {
 				r.Report(vf.Violation{Clause: o.fail.Clause, Tags: o.tags, Msg: fmt.Sprintf("%s\n unit: %s\n events: %v\n choices: %s", o.fail.Msg, u, o.events, c.String()), Cost: c.Cost() + u.repeats() + min(u.RestartAt, 1), History: history{u, c.Choices()}})
